@@ -17,7 +17,7 @@ tb: /b/
 
 S {int} :
     ta num[first] (tb num[second])?
-      { v := $first; if ${second.offset} >= 0 { v += $second }; _ = ${first().offset} + ${last().endoffset}; $$ = v }
+      { v := $first; if ${second.offset} >= 0 { v += ${second.endoffset} - ${second.offset} }; _ = ${first().offset} + ${last().endoffset}; $$ = v }
   | tb (ta | tb)[kw] num
       { $$ = $num + ${kw.offset} - ${left().offset} }
 ;
